@@ -17,11 +17,12 @@
 (* prefix matches whole path elements, begin is a case-insensitive string  *)
 (* prefix; one path declared with two non-exact types: either may win.     *)
 (***************************************************************************)
-EXTENDS Integers, Sequences, FiniteSets, FiniteSetsExt, TLC, Json, MapsParams, MapLookup
+EXTENDS Integers, Sequences, FiniteSets, FiniteSetsExt, Randomization, TLC, Json, MapsParams, MapLookup
 (* MapsParams defines Hosts (host names), Paths (declared paths) and ReqPaths (request paths), the last two as
    sets of character sequences -- TLC configuration files cannot hold tuples. *)
 
-CONSTANTS MaxRules
+CONSTANTS MaxRules,
+          NSample      \* random mode: number of rule sets drawn (0 = not used)
 
 ---------------------------------------------------------------------------
 (* enumeration of the rule sets handed to the real HostsMaps (TLC proposes) *)
@@ -32,6 +33,10 @@ VARIABLE rs
 Init == rs \in UNION {kSubset(k, AllRules) : k \in 1..MaxRules}
 Next == UNCHANGED rs
 Spec == Init /\ [][Next]_rs
+
+(* random mode: a sample of larger rule sets (about MaxRules rules each) over a deeper path alphabet *)
+InitRandom == rs \in RandomSetOfSubsets(NSample, MaxRules, AllRules)
+SpecRandom == InitRandom /\ [][Next]_rs
 
 Emit == PrintT(<<"BEHAVIOUR", ToJson(rs)>>)
 =============================================================================
